@@ -220,6 +220,9 @@ pub struct HybState {
     pub close_ver: Option<u32>,
     /// number of device writes issued by the workload proper (C04 / C03: later writes belong to recoveries)
     pub crash_writes: usize,
+    /// lookups the caller abandoned while they were still pending (key, invoke sequence number): foyer's fetch task
+    /// carries on in the background. Cleared by a restart (memory and tasks are gone).
+    pub bg_lookups: Vec<(u64, u64)>,
 }
 
 thread_local! {
@@ -502,6 +505,12 @@ pub fn judge(case: &Case, k: u64, bytes: &[u8], via: &str) -> Res {
                         })
                     });
                 shape.push(("handoff_during_or_after_removal", late.to_string()));
+                // was a lookup of this key, started while the removed version was current and abandoned by its caller
+                // while still pending, in flight when the removal started? (its disk load may complete afterwards
+                // and put the removed value back into memory)
+                let written = km.versions.get(&ver).map(|v| v.written_inv).unwrap_or(u64::MAX);
+                let bg = ST.with(|s| s.borrow().bg_lookups.iter().any(|(bk, at)| *bk == k && *at > written && *at < km.removed_at));
+                shape.push(("abandoned_lookup_pending_across_removal", bg.to_string()));
             }
             if ver >= km.floor {
                 // did a delayed background hand-off of this older version get a higher engine sequence than the
@@ -690,6 +699,7 @@ impl Hyb {
                 ST.with(|s| {
                     let mut s = s.borrow_mut();
                     s.restarts += 1;
+                    s.bg_lookups.clear();
                     s.closed = false;
                 });
                 hist::ev("reopened", 0, 0, 0);
@@ -973,6 +983,8 @@ impl Hyb {
                             Some(Err(e)) => Res::err(crate::memscn::err_kind(&e)),
                             None => {
                                 hist::fault("caller_abandoned_lookup");
+                                let inv = OP_INV.with(|c| c.get());
+                                ST.with(|s| s.borrow_mut().bg_lookups.push((kk, inv)));
                                 Res::unit()
                             }
                         };
